@@ -696,6 +696,18 @@ def oracle_c16(run, ops, impl):
                 out.append(V("C16:sudoers-changed-by-non-root", {"line": i + 1, "op": op, "root": st["root"]}))
             if res == "ok" and not is_root:
                 out.append(V("C16:root-operation-accepted-for-non-root", {"line": i + 1, "op": op, "root": st["root"]}))
+            if res == "ok" and a[1] == "edit":
+                cs = plist(a[4])
+                before, after = set(st["contracts"]), set(new["contracts"])
+                if a[3] == "add":
+                    want = before | {c.lower() for c in cs}
+                    if after != want:
+                        out.append(V("C16:accepted-add-did-not-produce-the-requested-set", {"line": i + 1, "op": op, "before": sorted(before), "after": sorted(after)}))
+                elif a[3] == "remove":
+                    # every contract named in its canonical (stored) spelling must be gone, nothing else may change
+                    must_go = {c for c in cs if c == c.lower()}
+                    if (after & must_go) or not (before - set(cs) <= after <= before):
+                        out.append(V("C16:accepted-remove-left-a-named-contract-listed", {"line": i + 1, "op": op, "before": sorted(before), "after": sorted(after)}))
             if res != "ok" and is_root and a[1] == "changeRoot" and a[3] in valid:
                 out.append(V("C16:changeRoot-refused-for-root", {"line": i + 1, "op": op, "root": st["root"], "result": res}))
         st = new
